@@ -16,16 +16,22 @@ compress=True:
 Exits 0 only when everything matches.
 """
 
+import atexit
 import importlib.util
 import itertools
 import os
 import random
+import shutil
 import subprocess
 import sys
 import tempfile
 import time
 
 HERE = os.path.dirname(os.path.abspath(__file__))
+
+# the refactored module under test (EQUIV_CANDIDATE lets a mutated copy be checked instead,
+# to make sure that this script does notice behaviour changes)
+CANDIDATE = os.environ.get('EQUIV_CANDIDATE') or os.path.join(HERE, 'bronzebeard', 'asm.py')
 
 
 # ----------------------------------------------------------------------------
@@ -44,14 +50,15 @@ def load_both():
     original_src = subprocess.check_output(
         ['git', 'show', 'HEAD:bronzebeard/asm.py'], cwd=HERE)
     tmpdir = tempfile.mkdtemp(prefix='equiv_asm_')
+    atexit.register(shutil.rmtree, tmpdir, ignore_errors=True)
     original_path = os.path.join(tmpdir, 'asm_original.py')
     with open(original_path, 'wb') as f:
         f.write(original_src)
     old = load_module('asm_original', original_path)
-    new = load_module('asm_refactored', os.path.join(HERE, 'bronzebeard', 'asm.py'))
+    new = load_module('asm_refactored', CANDIDATE)
     assert old is not new
     assert old.transform_compressible is not new.transform_compressible
-    with open(os.path.join(HERE, 'bronzebeard', 'asm.py'), 'rb') as f:
+    with open(CANDIDATE, 'rb') as f:
         if f.read() == original_src:
             print('WARNING: working tree asm.py is identical to HEAD (nothing refactored?)')
     return old, new
@@ -108,6 +115,7 @@ class Checker:
         self.section_name = None
         self.section_start = None
         self.section_programs = 0
+        self.log = []
 
     def section(self, name):
         self.end_section()
@@ -117,10 +125,9 @@ class Checker:
 
     def end_section(self):
         if self.section_name is not None:
-            print('  %-46s %7d programs  %6.1fs' % (
+            self.log.append('  %-52s %7d programs  %6.1fs' % (
                 self.section_name, self.programs - self.section_programs,
                 time.time() - self.section_start))
-            sys.stdout.flush()
         self.section_name = None
 
     def program(self, source, labels=None, constants=None, record=True):
@@ -164,6 +171,18 @@ class Checker:
             # pin it down / check all the lines behind the first error
             for line in part:
                 self.program(prelude + line + '\n', labels=labels)
+
+    def merge(self, other):
+        self.programs += other['programs']
+        self.lines += other['lines']
+        self.errors_seen += other['errors_seen']
+        self.compressed_seen += other['compressed_seen']
+        self.mismatches += other['mismatches']
+
+    def export(self):
+        self.end_section()
+        return {'programs': self.programs, 'lines': self.lines, 'errors_seen': self.errors_seen,
+                'compressed_seen': self.compressed_seen, 'mismatches': self.mismatches[:20], 'log': self.log}
 
     def report(self):
         self.end_section()
@@ -264,28 +283,35 @@ IMM_SPELLINGS = [
 ]
 
 
-def imm_spell(v, k):
-    return IMM_SPELLINGS[k % len(IMM_SPELLINGS)](v)
+def imm_spell(v, k, parens=True):
+    k = k % len(IMM_SPELLINGS)
+    text = IMM_SPELLINGS[k](v)
+    if text.startswith('(') and not parens:
+        text = '%d << 1 >> 1' % v if k == 5 else '0 + %d' % v if v >= 0 else '0 - %d' % -v
+    return text
 
 
 # ----------------------------------------------------------------------------
 # sections
 # ----------------------------------------------------------------------------
 
-def section_register_cross(c):
-    """All 32 x 32 (x 32) register combinations, rotating spellings."""
+CROSS_RRI = {'addi': IMM_ADDI_CROSS, 'lw': IMM_LOAD_CROSS, 'andi': IMM_SMALL, 'jalr': IMM_JALR}
+CUBE_SUBSET = [0, 1, 2, 3, 7, 8, 9, 10, 11, 12, 13, 14, 15, 16, 17, 31]
 
-    # rd, rs1, imm
-    for name, imms in [('addi', IMM_ADDI_CROSS), ('lw', IMM_LOAD_CROSS), ('andi', IMM_SMALL),
-                       ('jalr', IMM_JALR)]:
-        c.section('reg cross: ' + name)
-        lines = []
-        for n, imm in enumerate(imms):
-            for rd, rs1 in itertools.product(ALL, ALL):
-                k = rd + rs1 + n
-                lines.append('%s %s, %s, %s' % (name, spell(rd, k), spell(rs1, k // 2), imm_spell(imm, k)))
-        c.lines_batched(lines)
 
+def cross_rd_rs1_imm(c, name):
+    """All 32 x 32 register combinations (rotating spellings) of: name rd, rs1, imm"""
+    c.section('reg cross: ' + name)
+    lines = []
+    for n, imm in enumerate(CROSS_RRI[name]):
+        for rd, rs1 in itertools.product(ALL, ALL):
+            k = rd + rs1 + n
+            text = imm_spell(imm, k, parens=name not in ('lw', 'jalr') or n % 9 == 0)
+            lines.append('%s %s, %s, %s' % (name, spell(rd, k), spell(rs1, k // 2), text))
+    c.lines_batched(lines)
+
+
+def cross_offset_syntax(c):
     c.section('reg cross: lw/sw offset syntax')
     lines = []
     for n, imm in enumerate(IMM_LOAD_CROSS):
@@ -297,36 +323,48 @@ def section_register_cross(c):
                 lines.append('lw %s, %s(%s)' % (spell(ra, k), imm, spell(rb, k + 1)))
     c.lines_batched(lines)
 
-    # rs1, rs2, branch offset
-    for name in ('beq', 'bne'):
-        c.section('reg cross: ' + name)
-        lines = []
-        for n, imm in enumerate(IMM_BRANCH):
-            for rs1, rs2 in itertools.product(ALL, ALL):
-                k = rs1 + 2 * rs2 + n
-                lines.append('%s %s, %s, %s' % (name, spell(rs1, k), spell(rs2, k // 2), imm))
-        c.lines_batched(lines)
 
-    # rd, rs1, shamt
-    for name in ('slli', 'srli', 'srai'):
-        c.section('reg cross: ' + name)
-        lines = []
+def cross_branch(c, name):
+    c.section('reg cross: ' + name)
+    lines = []
+    for n, imm in enumerate(IMM_BRANCH):
+        for rs1, rs2 in itertools.product(ALL, ALL):
+            k = rs1 + 2 * rs2 + n
+            lines.append('%s %s, %s, %s' % (name, spell(rs1, k), spell(rs2, k // 2), imm))
+    c.lines_batched(lines)
+
+
+def cross_shift(c, name):
+    c.section('reg cross: ' + name)
+    lines = []
+    for n, sh in enumerate(SHAMT_TEXT):
         for rd, rs1 in itertools.product(ALL, ALL):
-            for n, sh in enumerate(SHAMT_TEXT if rd in REPS or rs1 in REPS or rd == rs1 else SHAMT_TEXT[:34:3]):
-                k = rd + rs1 + n
-                lines.append('%s %s, %s, %s' % (name, spell(rd, k), spell(rs1, k // 2), sh))
-        c.lines_batched(lines)
+            if not (rd in REPS or rs1 in REPS or rd == rs1 or n % 3 == 0):
+                continue
+            k = rd + rs1 + n
+            lines.append('%s %s, %s, %s' % (name, spell(rd, k), spell(rs1, k // 2), sh))
+    c.lines_batched(lines)
 
-    # rd, rs1, rs2
-    for name in ('add', 'sub', 'xor', 'or', 'and'):
-        c.section('reg cube: ' + name)
-        lines = []
-        for rd, rs1, rs2 in itertools.product(ALL, ALL, ALL):
-            k = rd + rs1 * 5 + rs2 * 7
-            lines.append('%s %s, %s, %s' % (name, spell(rd, k), spell(rs1, k // 2), spell(rs2, k // 3)))
-        c.lines_batched(lines)
 
-    # rd, imm
+def cube(c, name):
+    """rd x rs1 x rs2: the full cube for add / sub, every position with all 32 for the rest."""
+    c.section('reg cube: ' + name)
+    lines = []
+    if name in ('add', 'sub'):
+        triples = itertools.product(ALL, ALL, ALL)
+    else:
+        triples = set(itertools.product(CUBE_SUBSET, CUBE_SUBSET, CUBE_SUBSET))
+        for r in ALL:
+            for a, b in itertools.product(REPS, REPS):
+                triples |= {(r, a, b), (a, r, b), (a, b, r), (r, r, a), (r, a, r), (a, r, r)}
+        triples = sorted(triples)
+    for rd, rs1, rs2 in triples:
+        k = rd + rs1 * 5 + rs2 * 7
+        lines.append('%s %s, %s, %s' % (name, spell(rd, k), spell(rs1, k // 2), spell(rs2, k // 3)))
+    c.lines_batched(lines)
+
+
+def cross_rd_imm(c):
     c.section('reg cross: lui / jal')
     lines = []
     for rd in ALL:
@@ -340,8 +378,8 @@ def section_register_cross(c):
     c.lines_batched(lines)
 
 
-def section_every_spelling(c):
-    """Each register position with every spelling of every register, full immediate lists."""
+def spell_addi_full(c):
+    """Representative register pairs with the full immediate list (every residue of every scale)."""
     c.section('spellings: addi full immediates')
     lines = []
     pairs = set(itertools.product(REPS, REPS)) | {(r, r) for r in ALL} | \
@@ -351,11 +389,15 @@ def section_every_spelling(c):
             lines.append('addi x%d, x%d, %d' % (rd, rs1, imm))
     c.lines_batched(lines)
 
-    c.section('spellings: every spelling per position')
+
+
+def spell_positions(c, regs):
+    """Every spelling of every register in every operand position."""
+    c.section('spellings: every spelling per position x%d-x%d' % (regs[0], regs[-1]))
     lines = []
-    for r in ALL:
+    for r in regs:
         for s in spellings(r):
-            for o in REPS:
+            for o in (0, 2, 8, 17):
                 for imm in (0, 4, 16, -16, 31, 32, 124, 128, 252, 256, 1020, 1024):
                     lines.append('addi %s, x%d, %d' % (s, o, imm))
                     lines.append('addi x%d, %s, %d' % (o, s, imm))
@@ -386,6 +428,9 @@ def section_every_spelling(c):
                     lines.append('jalr x%d, %d(%s)' % (o, imm, s))
     c.lines_batched(lines)
 
+
+
+def spell_misc(c):
     c.section('spellings: load/store full immediates')
     lines = []
     for imm in IMM_LOAD_FULL:
@@ -439,13 +484,16 @@ def section_every_spelling(c):
     c.lines_batched(lines)
 
 
-def section_errors(c):
+GOOD_REGS = ['x0', 'x1', 'x2', 'x5', 'x8', 'x15', 'x16']
+GOOD_IMMS = ['0', '4', '16', '31', '32', '100', '4096']
+
+
+def errors_imm_forms(c, names):
     """Bad operands: the first error reported has to stay the same one."""
-    c.section('errors: bad registers / immediates')
-    good_regs = ['x0', 'x1', 'x2', 'x5', 'x8', 'x15', 'x16']
-    good_imms = ['0', '4', '16', '31', '32', '100', '4096']
+    c.section('errors: bad operands of ' + ' '.join(names))
+    good_regs, good_imms = GOOD_REGS, GOOD_IMMS
     lines = []
-    for name in ('addi', 'lw', 'andi', 'jalr', 'sw', 'beq', 'bne', 'ori', 'sb', 'blt'):
+    for name in names:
         for bad in BAD_REGS:
             for g in good_regs:
                 for imm in good_imms[:4] + BAD_IMMS[:3]:
@@ -460,7 +508,14 @@ def section_errors(c):
         for ra, rb in itertools.product(good_regs, good_regs):
             for imm in ('99999', '-99999', '0x1000', '-4096', '1 << 40'):
                 lines.append('%s %s, %s, %s' % (name, ra, rb, imm))
-    for name in ('add', 'sub', 'xor', 'or', 'and', 'slli', 'srli', 'srai', 'sll', 'mul'):
+    c.lines_each(lines)
+
+
+def errors_reg_forms(c, names):
+    c.section('errors: bad operands of ' + ' '.join(names))
+    good_regs, good_imms = GOOD_REGS, GOOD_IMMS
+    lines = []
+    for name in names:
         for bad in BAD_REGS + ['40', '0x40', '1+1', 'nope']:
             for ra, rb in itertools.product(good_regs, good_regs):
                 lines.append('%s %s, %s, %s' % (name, bad, ra, rb))
@@ -471,6 +526,13 @@ def section_errors(c):
                 lines.append('%s %s, x8, %s' % (name, bad, bad2))
                 lines.append('%s x8, %s, %s' % (name, bad, bad2))
                 lines.append('%s %s, %s, %s' % (name, bad, bad2, bad))
+    c.lines_each(lines)
+
+
+def errors_misc(c):
+    c.section('errors: lui / jal / auipc operands, arity')
+    good_regs, good_imms = GOOD_REGS, GOOD_IMMS
+    lines = []
     for name in ('lui', 'jal', 'auipc'):
         for bad in BAD_REGS:
             for imm in good_imms + BAD_IMMS:
@@ -484,6 +546,8 @@ def section_errors(c):
               'slli x8, x8', 'jalr x1, x2', 'lw x8 4 ( x9 )', 'sw x8, 4(x9) extra']
     c.lines_each(lines)
 
+
+def errors_references(c):
     c.section('errors: undefined references')
     lines = []
     for ra, rb in itertools.product(['x0', 'x1', 'x2', 'x8', 'x16', 'bad'], repeat=2):
@@ -539,18 +603,21 @@ def section_pseudo(c):
     c.lines_batched(lines, labels={'target': 0x1f000})
     c.lines_batched(lines, labels={'target': 0x12345678})
 
-    c.section('pseudo: branches and jumps to labels')
-    fillers = {
-        2: 'addi x8, x8, 1',
-        4: 'ori x5, x5, 1',
-    }
+    pseudo_far(c)
 
-    def body(nbytes):
-        # nbytes of instructions: as many 4-byte ones as possible
-        out = [fillers[4]] * (nbytes // 4)
-        if nbytes % 4:
-            out.append(fillers[2])
-        return out
+
+def gap_body(nbytes):
+    """Lines that occupy nbytes once compressed: two compressible instructions and padding data."""
+    k = min(2, nbytes // 2)
+    out = ['addi x8, x8, 1'] * k
+    if nbytes - 2 * k:
+        out.append('string ' + 'a' * (nbytes - 2 * k))
+    return out
+
+
+def pseudo_branches(c):
+    c.section('pseudo: branches and jumps to labels')
+    body = gap_body
 
     jumps = []
     for r in ('x0', 'x1', 'x8', 'x9', 'x15', 'x16', 'a0', 'sp'):
@@ -590,6 +657,9 @@ def section_pseudo(c):
             c.lines += len(src)
             c.program('\n'.join(src) + '\n')
 
+
+
+def pseudo_far(c):
     c.section('pseudo: far call / tail (auipc + jalr)')
     for base in (1 << 20, (1 << 20) + 0x1000, 1 << 21, 0x7ffff000, 0x12345000):
         for delta in (-4100, -4098, -4096, -2050, -2048, -2046, -8, -6, -4, -2, 0, 2, 4, 6, 8, 10, 12, 16,
@@ -684,10 +754,9 @@ def section_constants_aliases(c):
         c.program(p, labels={'later': 8, 'K': 3}, constants={'K': 16, 'R': 9})
 
 
-def section_label_immediates(c):
-    c.section('labels: %lo / %hi / %position / %offset operands')
+def label_uses():
     uses = []
-    for r in ('x2', 'x8', 'x9', 'x5', 'x0', 'x16'):
+    for r in ('x2', 'x8', 'x5', 'x0', 'x16'):
         for o in ('x2', 'x8', 'x0', 'x5'):
             for imm in ('%lo(L)', '%lo(M)', 'L', 'M', 'M - L', 'L - M', '%position(L, 0)', '%position(M, -8)',
                         '%offset(L)', '%offset(M)', '%lo(%offset(M))', '%lo(M - L)', '(M - L) * 4', '%position L 4',
@@ -695,33 +764,44 @@ def section_label_immediates(c):
                 uses.append('addi %s, %s, %s' % (r, o, imm))
                 uses.append('lw %s, %s, %s' % (r, o, imm))
                 uses.append('sw %s, %s, %s' % (r, o, imm))
-                uses.append('lw %s, %s(%s)' % (r, imm, o) if '(' not in imm and ' ' not in imm else 'andi %s, %s, %s' % (r, o, imm))
+                if '(' not in imm and ' ' not in imm:
+                    uses.append('lw %s, %s(%s)' % (r, imm, o))
+                else:
+                    uses.append('andi %s, %s, %s' % (r, o, imm))
                 uses.append('jalr %s, %s, %s' % (r, o, imm))
         for imm in ('%hi(L)', '%hi(M)', '%hi(M - L)', 'M', 'M - L', '%hi(%offset(M))', '%hi M', '%hi(0xfffe0000 + M)'):
             uses.append('lui %s, %s' % (r, imm))
-    # gaps chosen so that the label values land on both sides of 0/4/16/32/128/256/512/1024
-    gaps = [0, 2, 4, 6, 8, 12, 14, 16, 18, 28, 30, 32, 34, 60, 64, 124, 126, 128, 132, 252, 256, 260, 496, 508, 512,
-            516, 1016, 1020, 1024, 1028]
-    for n, gap in enumerate(gaps):
-        front = gaps[(n * 7) % len(gaps)]
-        body_front = ['ori x5, x5, 1'] * (front // 4) + ['addi x8, x8, 1'] * ((front % 4) // 2)
-        body_gap = ['ori x5, x5, 1'] * (gap // 4) + ['addi x8, x8, 1'] * ((gap % 4) // 2)
-        # uses in front of, between and behind the two labels
-        for chunk in range(0, len(uses), 16):
-            group = uses[chunk:chunk + 16]
-            third = len(group) // 3
-            src = body_front[:4] + group[:third] + body_front[4:] + ['L:'] + group[third:2 * third] + body_gap + \
-                ['M:'] + group[2 * third:]
-            c.lines += len(src)
-            same, a = c.program('\n'.join(src) + '\n', record=False)
-            if not same or a[0] != 'ok':
-                # one use at a time (first error hides the rest)
-                for u in group:
-                    for src in (body_front + [u, 'L:'] + body_gap + ['M:'],
-                                body_front + ['L:', u] + body_gap + ['M:'],
-                                body_front + ['L:'] + body_gap + ['M:', u]):
-                        c.program('\n'.join(src) + '\n')
+    return uses
 
+
+# gaps chosen so that the label values land on both sides of 0/4/16/32/128/256/512/1024
+LABEL_GAPS = [0, 2, 4, 6, 8, 12, 14, 16, 18, 28, 30, 32, 34, 60, 64, 124, 126, 128, 132, 252, 256, 260, 496, 508, 512,
+              516, 1016, 1020, 1024, 1028]
+
+
+def label_operands(c, part, parts):
+    """Operands computed from labels, used in front of, between and behind the two labels."""
+    c.section('labels: %%lo / %%hi / %%position / %%offset operands (%d/%d)' % (part + 1, parts))
+    uses = label_uses()
+    for n, gap in enumerate(LABEL_GAPS):
+        if n % parts != part:
+            continue
+        front = LABEL_GAPS[(n * 7) % len(LABEL_GAPS)]
+        body_front = gap_body(front)
+        body_gap = gap_body(gap)
+        for k, u in enumerate(uses):
+            place = (k + n) % 3
+            if place == 0:
+                src = body_front + [u, 'L:'] + body_gap + ['M:', 'ret']
+            elif place == 1:
+                src = body_front + ['L:', u] + body_gap + ['M:', 'ret']
+            else:
+                src = body_front + ['L:'] + body_gap + ['M:', u, 'ret']
+            c.lines += len(src)
+            c.program('\n'.join(src) + '\n')
+
+
+def label_chains(c):
     c.section('labels: shrinking chains')
     # every compressed instruction moves all labels behind it, which can make later jumps eligible
     for n in range(118, 138):
@@ -748,7 +828,10 @@ def random_programs(c, count, seed):
     rng = random.Random(seed)
 
     reg_pool = [0, 1, 2, 2, 8, 8, 9, 10, 11, 12, 13, 14, 15, 15, 5, 6, 7, 16, 17, 28, 31] + list(range(32))
-    imm_pool = sorted(set(IMM_ADDI_CROSS) | set(IMM_LOAD_CROSS) | set(IMM_SMALL))
+    imm_pool_all = sorted(set(IMM_ADDI_CROSS) | set(IMM_LOAD_CROSS) | set(IMM_SMALL))
+    imm_pool_ok = [v for v in imm_pool_all if -2048 <= v <= 2047]
+    lui_ok = [v for v in IMM_LUI if -0x80000 <= v <= 0xfffff]
+    shamt_ok = [t for t in SHAMT_TEXT if t not in ('32', '33', '-1', '1+1')]
 
     def reg(bad=False):
         if bad and rng.random() < 0.5:
@@ -767,12 +850,16 @@ def random_programs(c, count, seed):
         rng.shuffle(pending)
         src = []
 
-        def ref():
+        imm_pool = imm_pool_all if sloppy else imm_pool_ok
+
+        def ref(numeric=True):
             choices = list(label_names)
             if sloppy and rng.random() < 0.2:
                 choices.append('ghost')
-            if not choices:
+            if numeric and (not choices or rng.random() < 0.1):
                 return str(rng.choice((-8, -2, 0, 2, 4, 8, 64, 254, 256, 258)))
+            if not choices:
+                return 'ghost'
             return rng.choice(choices)
 
         def anyreg():
@@ -780,7 +867,7 @@ def random_programs(c, count, seed):
                 return rng.choice(alias_names)
             return reg(bad=sloppy and rng.random() < 0.08)
 
-        def imm(pool=None):
+        def imm(pool=None, parens=True):
             roll = rng.random()
             if sloppy and roll < 0.04:
                 return rng.choice(BAD_IMMS)
@@ -792,7 +879,9 @@ def random_programs(c, count, seed):
                 return rng.choice(['%%lo(%s)' % l, '%%position(%s, 0)' % l, l, '%%offset(%s)' % l,
                                    '%%lo(%%offset(%s))' % l])
             v = rng.choice(pool or imm_pool)
-            return imm_spell(v, rng.randrange(6)) if rng.random() < 0.3 else str(v)
+            if not sloppy and not -2048 <= v <= 2047:
+                v = v % 2048
+            return imm_spell(v, rng.randrange(6), parens=parens) if rng.random() < 0.3 else str(v)
 
         for n in range(nlines):
             if pending and rng.random() < 0.15:
@@ -811,20 +900,24 @@ def random_programs(c, count, seed):
                 if rng.random() < 0.5:
                     src.append('%s %s, %s(%s)' % (op, anyreg(), rng.choice(IMM_LOAD_CROSS), anyreg()))
                 else:
-                    src.append('%s %s, %s, %s' % (op, anyreg(), anyreg(), imm(IMM_LOAD_CROSS)))
+                    src.append('%s %s, %s, %s' % (op, anyreg(), anyreg(), imm(IMM_LOAD_CROSS, parens=sloppy)))
             elif kind < 0.50:
                 r = anyreg()
                 op = rng.choice(['add', 'sub', 'xor', 'or', 'and', 'sll', 'mul'])
                 src.append('%s %s, %s, %s' % (op, r, rng.choice([r, anyreg(), 'x0']), anyreg()))
             elif kind < 0.55:
                 r = anyreg()
-                sh = rng.choice(SHAMT_TEXT + (const_names or ['3']))
+                sh = rng.choice((SHAMT_TEXT if sloppy else shamt_ok) + (const_names or ['3']))
                 src.append('%s %s, %s, %s' % (rng.choice(['slli', 'srli', 'srai']), r, rng.choice([r, anyreg()]), sh))
             elif kind < 0.59:
                 r = anyreg()
                 src.append('andi %s, %s, %s' % (r, rng.choice([r, anyreg()]), imm(IMM_SMALL)))
             elif kind < 0.63:
-                src.append('lui %s, %s' % (anyreg(), imm(IMM_LUI) if rng.random() < 0.8 else '%%hi(%s)' % ref()))
+                if rng.random() < 0.8:
+                    v = rng.choice(IMM_LUI if sloppy else lui_ok)
+                    src.append('lui %s, %s' % (anyreg(), rng.choice([str(v), hex(v)])))
+                else:
+                    src.append('lui %s, %%hi(%s)' % (anyreg(), ref()))
             elif kind < 0.70:
                 src.append('%s %s, %s, %s' % (rng.choice(['beq', 'bne', 'blt', 'bgeu']), anyreg(),
                                              rng.choice(['x0', 'zero', '0', anyreg()]), ref()))
@@ -832,7 +925,8 @@ def random_programs(c, count, seed):
                 src.append('jal %s, %s' % (rng.choice(['x0', 'x1', 'ra', 'zero', anyreg()]), ref()))
             elif kind < 0.79:
                 src.append('jalr %s, %s, %s' % (rng.choice(['x0', 'x1', anyreg()]), anyreg(),
-                                               rng.choice(['0', '0', '0', '4', imm(IMM_JALR)])))
+                                               rng.choice(['0', '0', '0', '4', imm(IMM_JALR if sloppy else [-2048, -4, -2, 0, 2, 4, 2046],
+                                                                               parens=sloppy)])))
             elif kind < 0.90:
                 op = rng.choice(['nop', 'li', 'li', 'mv', 'not', 'neg', 'seqz', 'snez', 'sltz', 'sgtz', 'beqz', 'bnez',
                                  'blez', 'bgez', 'bltz', 'bgtz', 'bgt', 'ble', 'bgtu', 'bleu', 'j', 'jal', 'jr', 'jalr',
@@ -845,12 +939,14 @@ def random_programs(c, count, seed):
                     src.append('li %s, %s' % (anyreg(), v if rng.random() < 0.8 else imm()))
                 elif op in ('mv', 'not', 'neg', 'seqz', 'snez', 'sltz', 'sgtz'):
                     src.append('%s %s, %s' % (op, anyreg(), anyreg()))
+                elif not label_names and not sloppy and op not in ('jr', 'jalr'):
+                    src.append('ret')
                 elif op in ('beqz', 'bnez', 'blez', 'bgez', 'bltz', 'bgtz'):
-                    src.append('%s %s, %s' % (op, anyreg(), ref()))
+                    src.append('%s %s, %s' % (op, anyreg(), ref(False)))
                 elif op in ('bgt', 'ble', 'bgtu', 'bleu'):
-                    src.append('%s %s, %s, %s' % (op, anyreg(), anyreg(), ref()))
+                    src.append('%s %s, %s, %s' % (op, anyreg(), anyreg(), ref(False)))
                 elif op in ('j', 'jal', 'call', 'tail'):
-                    src.append('%s %s' % (op, ref()))
+                    src.append('%s %s' % (op, ref(False)))
                 else:
                     src.append('%s %s' % (op, anyreg()))
             elif kind < 0.93:
@@ -860,15 +956,15 @@ def random_programs(c, count, seed):
             elif kind < 0.95:
                 name = 'REG%d' % len(alias_names)
                 src.append('%s = %s' % (name, rng.choice(['sp', 'x8', 'a0', 's1', 'zero', 'ra', 't0', '9', '2',
-                                                           str(rng.randrange(0, 34))])))
+                                                           str(rng.randrange(0, 34 if sloppy else 32))])))
                 alias_names.append(name)
             elif kind < 0.98:
-                src.append(rng.choice(['db 1', 'dh 0x1234', 'dw 0xdeadbeef', 'bytes 1 2 3', 'shorts 1 2', 'string hi',
-                                       'align 4', 'align 8', 'align 2', 'pack <I 5', 'ints 7']))
+                src.append(rng.choice(['db 1\nalign 2', 'dh 0x1234', 'dw 0xdeadbeef', 'bytes 1 2 3 4', 'shorts 1 2',
+                                       'string hi', 'align 4', 'align 8', 'align 2', 'pack <I 5', 'ints 7',
+                                       'db 1' if sloppy else 'dh 1']))
             else:
                 src.append(rng.choice(['c.addi x8, 1', 'c.nop', 'c.mv x8, x9', 'c.jr ra', 'c.li a0, 5', 'c.lwsp a0, 4',
-                                       'c.ebreak', 'c.add a0, a1', 'c.lw a0, 4(a1)', 'c.j %s' % ref(),
-                                       'c.beqz a0, %s' % ref()]))
+                                       'c.ebreak', 'c.add a0, a1', 'c.lw a0, 4(a1)', 'c.j 8', 'c.beqz a0, -4']))
         for name in pending:
             src.append(name + ':')
         if rng.random() < 0.5:
@@ -882,29 +978,94 @@ def random_programs(c, count, seed):
 
 # ----------------------------------------------------------------------------
 
-def main():
-    quick = '--quick' in sys.argv
+TASKS = [
+    (cross_rd_rs1_imm, 'addi'), (cross_rd_rs1_imm, 'lw'), (cross_rd_rs1_imm, 'andi'), (cross_rd_rs1_imm, 'jalr'),
+    (cross_offset_syntax,), (cross_branch, 'beq'), (cross_branch, 'bne'),
+    (cross_shift, 'slli'), (cross_shift, 'srli'), (cross_shift, 'srai'),
+    (cube, 'add'), (cube, 'sub'), (cube, 'xor'), (cube, 'or'), (cube, 'and'),
+    (cross_rd_imm,),
+    (spell_addi_full,),
+    (spell_positions, ALL[0:8]), (spell_positions, ALL[8:16]), (spell_positions, ALL[16:24]),
+    (spell_positions, ALL[24:32]),
+    (spell_misc,),
+    (errors_imm_forms, ('addi', 'lw', 'andi')), (errors_imm_forms, ('jalr', 'sw', 'beq', 'bne')),
+    (errors_imm_forms, ('ori', 'sb', 'blt')),
+    (errors_reg_forms, ('add', 'sub', 'xor', 'or', 'and')), (errors_reg_forms, ('slli', 'srli', 'srai', 'sll', 'mul')),
+    (errors_misc,), (errors_references,),
+    (section_pseudo,), (pseudo_branches,),
+    (section_constants_aliases,),
+    (label_chains,),
+] + [(label_operands, part, 4) for part in range(4)] + [(random_programs, 1000, 20260927 + n) for n in range(6)]
+
+QUICK_TASKS = [
+    (cross_rd_rs1_imm, 'jalr'), (cube, 'xor'), (cross_rd_imm,), (spell_addi_full,), (spell_misc,),
+    (errors_imm_forms, ('addi',)), (errors_misc,), (errors_references,), (random_programs, 1000, 20260927),
+    (pseudo_branches,), (pseudo_far,), (label_operands, 0, 10),
+]
+
+_worker_checker_args = None
+
+
+def _worker_init():
+    global _worker_checker_args
     old, new = load_both()
     instrument(old)
     instrument(new)
-    c = Checker(old, new)
+    _worker_checker_args = (old, new)
 
-    # sanity check of the harness itself: the two runs must be comparable and
-    # the comparison must be able to see compression happening
+
+def _worker_run(index_and_task):
+    index, task = index_and_task
+    if _worker_checker_args is None:
+        _worker_init()
+    c = Checker(*_worker_checker_args)
+    func, *args = task
+    func(c, *args)
+    return index, c.export()
+
+
+def main():
+    import argparse
+    import multiprocessing
+
+    parser = argparse.ArgumentParser(description=__doc__, formatter_class=argparse.RawDescriptionHelpFormatter)
+    parser.add_argument('--quick', action='store_true', help='run a small subset only')
+    parser.add_argument('--jobs', type=int, default=min(8, os.cpu_count() or 1), help='worker processes')
+    args = parser.parse_args()
+
+    # forked workers inherit the two loaded modules
+    global _worker_checker_args
+    old, new = load_both()
+    instrument(old)
+    instrument(new)
+    _worker_checker_args = (old, new)
+    total = Checker(old, new)
+
+    # sanity check of the harness itself: the comparison must be able to see
+    # compression happening and errors being reported
     r = run(old, 'addi x8, x8, 1\n')
     assert r[0] == 'ok' and len(r[1]) == 2 and r[-1][0][1][0][0] == 'CITypeInstruction', r
     r = run(old, 'addi x99, x8, 1\n')
     assert r[0] == 'error' and r[1] == 'AssemblerError', r
+    assert run(old, 'addi x8, x8, 1\n') != run(old, 'addi x8, x8, 2\n')
 
-    if not quick:
-        section_register_cross(c)
-    section_every_spelling(c)
-    section_errors(c)
-    section_pseudo(c)
-    section_constants_aliases(c)
-    section_label_immediates(c)
-    random_programs(c, 1000 if quick else 6000, seed=20260927)
-    return c.report()
+    tasks = list(enumerate(QUICK_TASKS if args.quick else TASKS))
+    started = time.time()
+    if args.jobs <= 1:
+        results = map(_worker_run, tasks)
+    else:
+        pool = multiprocessing.Pool(args.jobs)
+        results = pool.imap_unordered(_worker_run, tasks, chunksize=1)
+    collected = {}
+    for index, exported in results:
+        collected[index] = exported
+        for entry in exported['log']:
+            print(entry)
+        sys.stdout.flush()
+    for index in sorted(collected):
+        total.merge(collected[index])
+    print('wall time: %.1fs' % (time.time() - started))
+    return total.report()
 
 
 if __name__ == '__main__':
